@@ -97,6 +97,12 @@ func checkC18(c *Ctx, r *Report) {
 						}
 					}
 				}
+				// &a.field handed to a helper that stores the value
+				if ue, ok := n.(*ast.UnaryExpr); ok && ue.Op == token.AND {
+					if fp := c.fieldPath(ue.X); strings.HasPrefix(fp, "<cmd.parsedArgs>.") || strings.HasPrefix(fp, "<parsedArgs>.") {
+						fs = append(fs, fp[strings.Index(fp, ".")+1:])
+					}
+				}
 				return true
 			})
 		}
@@ -447,14 +453,24 @@ func checkC18(c *Ctx, r *Report) {
 	r.check(buffered == "", "streams", "unbuffered-stdout", "no bufio writer in the command", "the command wraps its output in a bufio.Writer: output printed before a failure is lost unless every error path flushes", buffered)
 	if _, mk := c.find("makeConfig"); mk != nil {
 		got := map[string]string{}
-		ast.Inspect(mk.Body, func(n ast.Node) bool {
-			if kv, ok := n.(*ast.KeyValueExpr); ok {
-				if id, ok := kv.Key.(*ast.Ident); ok {
-					got[id.Name] = qname(c.objOf(kv.Value))
+		bodies := []ast.Node{mk.Body}
+		walkCalls(mk.Body, false, func(call *ast.CallExpr) {
+			if fn, ok := c.callee(call).(*types.Func); ok && fn.Pkg() != nil && fn.Pkg().Path() == bclPath && isNamed(c.typeOf(call), bclPath, "config") {
+				if hd := c.funcDecls[fn]; hd != nil && hd.Body != nil {
+					bodies = append(bodies, hd.Body) // defaults taken from a helper that returns the config
 				}
 			}
-			return true
 		})
+		for _, b := range bodies {
+			ast.Inspect(b, func(n ast.Node) bool {
+				if kv, ok := n.(*ast.KeyValueExpr); ok {
+					if id, ok := kv.Key.(*ast.Ident); ok {
+						got[id.Name] = qname(c.objOf(kv.Value))
+					}
+				}
+				return true
+			})
+		}
 		r.check(got["output"] == "os.Stdout" && got["logw"] == "os.Stderr", "streams", "library-defaults", "output: os.Stdout, logw: os.Stderr", fmt.Sprintf("makeConfig defaults are %v; must be output: os.Stdout, logw: os.Stderr", got), c.pos(mk.Pos()))
 	}
 	// stdin
@@ -476,22 +492,35 @@ func checkC18(c *Ctx, r *Report) {
 		return true
 	})
 	okDash := false
-	ast.Inspect(pa.Body, func(n ast.Node) bool {
-		ifs, ok := n.(*ast.IfStmt)
-		if !ok {
-			return true
+	dashBodies := []ast.Node{pa.Body}
+	c.walkCallsDeep(c.Cmd, pa.Body, func(call *ast.CallExpr) {
+		if fn, ok := c.callee(call).(*types.Func); ok && fn.Pkg() == c.Cmd.Types {
+			if hd := c.funcDecls[fn]; hd != nil && hd.Body != nil {
+				dashBodies = append(dashBodies, hd.Body)
+			}
 		}
-		if be, ok := stripParens(ifs.Cond).(*ast.BinaryExpr); ok && be.Op == token.EQL && strings.HasSuffix(c.fieldPath(be.X), ".file") {
-			if s, isS := c.strConst(be.Y); isS && s == "" && len(ifs.Body.List) == 1 {
-				if as, ok := ifs.Body.List[0].(*ast.AssignStmt); ok {
-					if v, isV := c.strConst(as.Rhs[0]); isV && v == "-" {
+	})
+	for _, body := range dashBodies {
+		ast.Inspect(body, func(n ast.Node) bool {
+			as, ok := n.(*ast.AssignStmt)
+			if !ok || len(as.Lhs) != 1 || len(as.Rhs) != 1 || !strings.HasSuffix(c.fieldPath(as.Lhs[0]), ".file") {
+				return true
+			}
+			if v, isV := c.strConst(as.Rhs[0]); !isV || v != "-" {
+				return true
+			}
+			// under the fact that no file was given: file == "" or no file words (len(rest) == 0)
+			for _, f := range splitFacts(c.factsAt(body, as)) {
+				a := condAtom{E: stripParens(f.Cond), Pos: f.Pos, Init: f.Init}
+				if x, isEmpty, ok := c.emptyStringCmp(a); ok && isEmpty {
+					if strings.HasSuffix(c.fieldPath(x), ".file") || isStringSlice(c.typeOf(x)) {
 						okDash = true
 					}
 				}
 			}
-		}
-		return true
-	})
+			return true
+		})
+	}
 	r.check(okStdin && okDash, "streams", "stdin", "no file -> '-' -> os.Stdin", "without a file argument the command must read standard input ('' -> '-' in parseArgs, '-' -> os.Stdin in open)", c.pos(open.Pos()))
 	// ---- the .bcb file carries every part of the program that the output depends on
 	if fspec, err := loadFormatSpec(); err == nil {
@@ -575,4 +604,12 @@ func (c *Ctx) walkCallsDeep(pkg *packages.Package, body ast.Node, f func(*ast.Ca
 		})
 	}
 	walk(body, 0)
+}
+
+func isStringSlice(t types.Type) bool {
+	if t == nil {
+		return false
+	}
+	sl, ok := t.Underlying().(*types.Slice)
+	return ok && types.TypeString(sl.Elem(), nil) == "string"
 }
